@@ -750,13 +750,32 @@ def callback_bodies(prog, f, expr, depth=0):
         out.append((n, list(expr.body.args) + b))
     return out
   if isinstance(expr, ast.Call) and (unparse(expr.func).split('.')[-1] == 'partial') and expr.args:
-    return [(n, list(expr.args[1:]) + [k.value for k in expr.keywords] + b) for n, b in callback_bodies(prog, f, expr.args[0], depth + 1)]
+    out = []
+    for n, b in callback_bodies(prog, f, expr.args[0], depth + 1):
+      bound = list(expr.args[1:]) + [k.value for k in expr.keywords] + b
+      if isinstance(n, (ast.FunctionDef, ast.AsyncFunctionDef)) and not expr.keywords and not any(isinstance(a, ast.Starred) for a in expr.args):
+        # the function with its leading parameters replaced by the bound arguments (self of a bound method skipped)
+        ps = [a.arg for a in n.args.posonlyargs + n.args.args]
+        if isinstance(expr.args[0], ast.Attribute) and ps[:1] == ['self']:
+          ps = ps[1:]
+        stored = set(x.id for x in ast.walk(n) if isinstance(x, ast.Name) and isinstance(x.ctx, ast.Store))
+        mp = dict((pn, a) for pn, a in zip(ps, expr.args[1:]) if pn not in stored)
+        if mp:
+          n2 = _copy.deepcopy(n)
+          n2.body = [_SubstNames(mp).visit(st) for st in n2.body]
+          out.append((n2, bound))
+          continue
+      out.append((n, bound))
+    return out
   if isinstance(expr, ast.Name):
     g = f
     while g is not None:
       if expr.id in getattr(g, 'nested', {}):
         return [(g.nested[expr.id].node, [])]
       g = getattr(g, 'parent', None)
+    mod = getattr(f, 'module', None)
+    if mod is not None and expr.id in getattr(mod, 'functions', {}):
+      return [(mod.functions[expr.id].node, [])]       # a module-level function of the same module
     return []
   if isinstance(expr, ast.Attribute) and isinstance(expr.value, ast.Name) and expr.value.id in ('self', 'cls') and getattr(f, 'cls', None) is not None:
     m = prog.lookup_method(f.cls, expr.attr)
